@@ -104,6 +104,12 @@ class Translator:
             raise TranslationError("attribute %s" % ast.dump(e))
         if isinstance(e, ast.BinOp):
             a, b = self.expr(e.left, p), self.expr(e.right, p)
+            if isinstance(a, Opt):
+                p.side.append(z3.Not(a.is_none))     # arithmetic on None would raise
+                a = a.val
+            if isinstance(b, Opt):
+                p.side.append(z3.Not(b.is_none))
+                b = b.val
             if z3.is_expr(a) and z3.is_expr(b) and z3.is_int_value(a) and z3.is_int_value(b) and not isinstance(e.op, (ast.FloorDiv, ast.Mod, ast.Pow)):
                 av, bv = a.as_long(), b.as_long()
                 if isinstance(e.op, ast.Add):
